@@ -253,6 +253,29 @@ func checkC19(c *Ctx) {
 				"err1": r0.Err != nil || r0.Panic != "", "err2": rk.Err != nil || rk.Panic != ""})
 		}
 	}
+	// LF vs CRLF line ends (files without raw blocks), including string literals that
+	// continue across a line end inside their quotes
+	fcNoRaw := fc
+	fcNoRaw.Raw = false
+	for i := 0; i < nprog; i++ {
+		f, av := GenFile(r, fcNoRaw, "")
+		ps := FilePieces(f, Style{R: r})
+		for k := range ps {
+			t := ps[k].Text
+			if strings.HasPrefix(t, `"`) && strings.Contains(t, " ") && r.Chance(1, 2) {
+				j := strings.Index(t, " ")
+				ps[k].Text = t[:j] + "\n      " + t[j+1:]
+			}
+		}
+		lf := Layout(ps, 0, r)
+		crlf := strings.ReplaceAll(lf, "\n", "\r\n")
+		o := Opts{Optimize: i%2 == 0, AutoVar: av}
+		r1, r2 := Compile(lf, o), Compile(crlf, o)
+		id := fmt.Sprintf("crlf%d", i)
+		pairSrc[id] = [2]string{lf, crlf}
+		recs = append(recs, map[string]interface{}{"id": id, "out1": outLines(r1.Out), "out2": outLines(r2.Out),
+			"err1": r1.Err != nil || r1.Panic != "", "err2": r2.Err != nil || r2.Panic != ""})
+	}
 	bad, states, ok := runPairCases(c, "SameOut", "same.ndjson", recs)
 	if !ok {
 		return
